@@ -1,6 +1,7 @@
 package crstate
 
 import (
+	"encoding/json"
 	"fmt"
 	"os"
 	"sort"
@@ -28,6 +29,19 @@ func TestDev(t *testing.T) {
 	}
 	showLog := len(parts) > 3
 	os.Setenv("SIM_TMP", t.TempDir())
+	if kf := os.Getenv("CRDEV_KNOWNFILE"); kf != "" {
+		b, err := os.ReadFile(kf)
+		if err != nil {
+			t.Fatal(err)
+		}
+		var items []struct{ Property, Signature string }
+		if err := json.Unmarshal(b, &items); err != nil {
+			t.Fatal(err)
+		}
+		for _, it := range items {
+			core.KnownSigs[it.Property+"|"+it.Signature] = true
+		}
+	}
 	if k := os.Getenv("CRDEV_KNOWN"); k != "" {
 		devKnownPrefixes = strings.Split(k, ",")
 	}
@@ -39,8 +53,12 @@ func TestDev(t *testing.T) {
 	for i := first; i < first+n; i++ {
 		seed := core.Mix(1, uint64(i))
 		e := Engine{}
-		plan := e.Generate(core.NewRng(seed), prop, "quick")
-		plan.Engine, plan.Property, plan.Tier, plan.Seed = "crstate", prop, "quick", seed
+		tier := "quick"
+		if t := os.Getenv("CRDEV_TIER"); t != "" {
+			tier = t
+		}
+		plan := e.Generate(core.NewRng(seed), prop, tier)
+		plan.Engine, plan.Property, plan.Tier, plan.Seed = "crstate", prop, tier, seed
 		t0 := time.Now()
 		out := core.Run(t, e, plan, showLog)
 		wall += time.Since(t0)
@@ -70,7 +88,11 @@ func TestDev(t *testing.T) {
 				}
 			}
 			if viols[v.Signature] == 0 {
-				fmt.Printf("seed#%d VIOL %s\n    %s\n", i, v.Signature, v.Message)
+				tag := "VIOL"
+				if core.KnownSigs[v.Property+"|"+v.Signature] {
+					tag = "KNOWN"
+				}
+				fmt.Printf("seed#%d %s %s\n    %s\n", i, tag, v.Signature, v.Message)
 			}
 			viols[v.Signature]++
 		}
